@@ -220,3 +220,91 @@
         assert!(w.matched_readers[1].reliability() == ReliabilityKind::Reliable && w.matched_readers[1].durability() == DurabilityKind::Volatile);
         core::mem::forget(w);
     }
+
+    // ---------------------------------------------------------------- C04: what the writer actually sends to a matched reader
+    use core::sync::atomic::{AtomicI64, AtomicUsize, Ordering};
+    use crate::rtps_messages::overall_structure::Submessage;
+    static REC_DATA: AtomicUsize = AtomicUsize::new(0);
+    static REC_DATA_SN: AtomicI64 = AtomicI64::new(0);
+    static REC_GAP: AtomicUsize = AtomicUsize::new(0);
+    static REC_GAP_START: AtomicI64 = AtomicI64::new(0);
+
+    /// Stand-in for RtpsMessageWrite::from_submessages (rtps/message_creator.rs) used when the reader-proxy state machine
+    /// is verified: instead of serializing the whole message (which CBMC does not finish), it records WHICH submessages
+    /// the state machine decided to send - kind (from the real header writer of each submessage) and, for DATA and GAP, the
+    /// sequence number (from the real element writer) - and returns an empty message.
+    fn from_submessages_recorder(submessages: &[&(dyn Submessage + Send)], guid_prefix: GuidPrefix) -> RtpsMessageWrite {
+        let mut i = 0;
+        while i < submessages.len() {
+            let mut hv: Vec<u8> = Vec::new();
+            submessages[i].write_submessage_header_into_bytes(0, &mut hv);
+            let kind = hv[0];
+            if kind == 0x15 || kind == 0x08 {
+                let mut ev: Vec<u8> = Vec::new();
+                submessages[i].write_submessage_elements_into_bytes(&mut ev);
+                if kind == 0x15 {
+                    // DATA: extraFlags(2) octetsToInlineQos(2) readerId(4) writerId(4) writerSN(8)
+                    let high = i32::from_le_bytes([ev[12], ev[13], ev[14], ev[15]]);
+                    let low = u32::from_le_bytes([ev[16], ev[17], ev[18], ev[19]]);
+                    REC_DATA.fetch_add(1, Ordering::SeqCst);
+                    REC_DATA_SN.store(((high as i64) << 32) + low as i64, Ordering::SeqCst);
+                } else {
+                    // GAP: readerId(4) writerId(4) gapStart(8)
+                    let high = i32::from_le_bytes([ev[8], ev[9], ev[10], ev[11]]);
+                    let low = u32::from_le_bytes([ev[12], ev[13], ev[14], ev[15]]);
+                    REC_GAP.fetch_add(1, Ordering::SeqCst);
+                    REC_GAP_START.store(((high as i64) << 32) + low as i64, Ordering::SeqCst);
+                }
+                core::mem::forget(ev);
+            }
+            core::mem::forget(hv);
+            i += 1;
+        }
+        RtpsMessageWrite::new(&crate::rtps_messages::overall_structure::RtpsMessageHeader::new(
+            crate::rtps::types::PROTOCOLVERSION_2_4, crate::rtps::types::VENDOR_ID_S2E, guid_prefix), &[])
+    }
+
+    /// C04, repair path: a VOLATILE reader never gets a sample written before it was matched, also when it asks for it.
+    /// Writer history: one change with an arbitrary sequence number s (1..=1000) written BEFORE the match; a RELIABLE
+    /// reader proxy (VOLATILE or TRANSIENT_LOCAL, symbolic) added by the real add_matched_reader, everything marked as
+    /// already sent; the reader then requests s (ACKNACK / requested_changes_set).  The real write_message_reliable then
+    /// sends, for a VOLATILE reader, NO DATA (a GAP starting at s instead) and, for a TRANSIENT_LOCAL reader, exactly one
+    /// DATA carrying sequence number s.  The message serialization is replaced by a recorder (stub) that notes the kind
+    /// and sequence number of every submessage the state machine hands over.
+    /// @props C04
+    /// @kind bounded
+    /// @tier quick
+    /// @timeout 1500
+    /// @bounds writer history of 1 change (4-byte payload, not fragmented); 1 requested change; RtpsMessageWrite::from_submessages replaced by a recording stub
+    /// @cbmc --unwind 6 --unwindset memcmp.0:18
+    /// @fn RtpsReaderProxy::write_message_reliable, RtpsStatefulWriter::add_matched_reader, RtpsReaderProxy::next_requested_change, CacheChange::as_data_submessage
+    #[cfg_attr(kani, kani::proof)]
+    #[cfg_attr(kani, kani::stub(RtpsMessageWrite::from_submessages, from_submessages_recorder))]
+    fn c04_requested_change_volatile_gets_gap_transient_local_gets_data() {
+        let mut w = mk_writer();
+        let s: i64 = kani::any();
+        kani::assume(s >= 1 && s <= 1000);
+        w.changes.push(change(s));
+        let g = any_guid();
+        let volatile: bool = kani::any();
+        w.add_matched_reader(reader_proxy(g, ReliabilityKind::Reliable,
+            if volatile { DurabilityKind::Volatile } else { DurabilityKind::TransientLocal }));
+        let writer_id = w.guid.entity_id();
+        let prefix = w.guid.prefix();
+        let hb = w.heartbeat_period;
+        let p = &mut w.matched_readers[0];
+        p.set_highest_sent_seq_num(s);
+        p.requested_changes_set([s].into_iter());
+        let changes = [change(s)];
+        p.write_message_reliable(writer_id, &changes, 1344, hb, &NullWriter, &FixedClock, prefix);
+        let nd = REC_DATA.load(Ordering::SeqCst);
+        let ng = REC_GAP.load(Ordering::SeqCst);
+        if volatile {
+            assert!(nd == 0, "C04: a VOLATILE reader is never sent a sample written before it was matched, also on request");
+            assert!(ng == 1 && REC_GAP_START.load(Ordering::SeqCst) == s, "C04: it is told with a GAP that the number is irrelevant");
+        } else {
+            assert!(nd == 1 && REC_DATA_SN.load(Ordering::SeqCst) == s, "C04: a TRANSIENT_LOCAL reader gets the requested retained sample");
+            assert!(ng == 0);
+        }
+        core::mem::forget(w);
+    }
